@@ -204,6 +204,27 @@ func c12CDP(t *testing.T, rec *ev.Rec, round int) {
 	r.topUpDebt(owner, "ucmst", sdk.NewInt(20_000_000))
 	c.Deliver(owner, &auctionsV2types.MsgDepositLimitBidRequest{CollateralTokenId: coll.ID, DebtTokenId: as.ID, PremiumDiscount: sdk.NewInt(7), Bidder: owner.Addr.String(), Amount: sdk.NewCoin("ucmst", sdk.NewInt(9_000_000))})
 	c.Deliver(owner, &auctionsV2types.MsgDepositLimitBidRequest{CollateralTokenId: coll.ID, DebtTokenId: as.ID, PremiumDiscount: sdk.NewInt(9), Bidder: owner.Addr.String(), Amount: sdk.NewCoin("ucmst", sdk.NewInt(4_000_000))})
+	// a limit bid is keyed by (collateral, debt, premium, bidder): an account that happens to hold a bid of its own at
+	// the same key (the workload aims bids at whatever premium an auction is about to reach) addresses its own bid with
+	// the same message, so it is not a non-owner for these cases
+	othersWithoutBid := func(prems ...int64) []*sim.Acct {
+		var o []*sim.Acct
+		for _, a := range c.Accts {
+			if a == owner || len(o) >= 3 {
+				continue
+			}
+			has := false
+			for _, pr := range prems {
+				if _, found := c.App.NewaucKeeper.GetUserLimitBidData(c.Ctx(), as.ID, coll.ID, sdk.NewInt(pr), a.Addr.String()); found {
+					has = true
+				}
+			}
+			if !has {
+				o = append(o, a)
+			}
+		}
+		return o
+	}
 	for _, pc := range []pairedCase{
 		{name: "limit-bid/withdraw", owner: owner, mk: func(a *sim.Acct) sdk.Msg {
 			return &auctionsV2types.MsgWithdrawLimitBidRequest{CollateralTokenId: coll.ID, DebtTokenId: as.ID, PremiumDiscount: sdk.NewInt(7), Bidder: a.Addr.String(), Amount: sdk.NewCoin("ucmst", sdk.NewInt(1_000_000))}
@@ -215,7 +236,7 @@ func c12CDP(t *testing.T, rec *ev.Rec, round int) {
 			return &auctionsV2types.MsgCancelLimitBidRequest{CollateralTokenId: coll.ID, DebtTokenId: as.ID, PremiumDiscount: sdk.NewInt(7), Bidder: a.Addr.String()}
 		}},
 	} {
-		runPaired(c, rec, keys, pc, others(owner))
+		runPaired(c, rec, keys, pc, othersWithoutBid(7, 9))
 	}
 
 	// ---- kill switch: admins only
